@@ -42,7 +42,8 @@ def _rand_cmd(rng, keys):
     r = rng.random()
     k = rng.choice(keys)
     if r < 0.2: return ["get", k]
-    if r < 0.4: return ["put", k, rng.randint(1, 9)]
+    if r < 0.32: return ["put", k, rng.randint(1, 9)]
+    if r < 0.4: return ["putif", k, rng.randint(1, 9), rng.random() < 0.6 and False or rng.random() < 0.5]
     if r < 0.8: return ["incr", k, rng.choice([1, 1, 2, 5])]
     if r < 0.92: return ["del", k]
     return ["sleep", rng.choice([1, 2, 4, 8])]
@@ -72,7 +73,8 @@ def _counter_case(rng):
     mode = rng.choice(["locked", "serializable"])
     nt = rng.randint(2, 4)
     tasks = [[{"kind": "txn", "mode": mode, "form": rng.choice(["decor", "decor", "ctx", "decor_in_decor"]),
-               "cmds": [["incr", 0, rng.choice([1, 2])]] + ([["incr", 1, 1]] if rng.random() < 0.3 else []), "raise": rng.random() < 0.15}
+               "cmds": ([["putif", 2, 1, False]] if rng.random() < 0.3 else []) + [["incr", 0, rng.choice([1, 2])]] + ([["incr", 1, 1]] if rng.random() < 0.3 else []),
+               "raise": rng.random() < 0.15}
               for _ in range(rng.randint(1, 2))] for _ in range(nt)]
     return {"timeout": 0.75, "init": {"0": rng.randint(0, 5)}, "tasks": tasks, "schedule": [rng.randrange(12) for _ in range(40)]}
 
@@ -187,7 +189,10 @@ def _run(case):
                         elif name in ("delete_many", "set_many"):
                             log.append(["cmd", tick(), who(), name, 0, None, 0, snap()])
                         elif name == "set":
-                            log.append(["cmd", tick(), who(), "set", int(key[1:]), None, 0, snap()])
+                            exist = kw.get("exist", a[3] if len(a) > 3 else None)
+                            log.append(["cmd", tick(), who(), "set", int(key[1:]), None if exist is None else int(bool(r)), 0, snap()])
+                        elif name == "exists":
+                            log.append(["cmd", tick(), who(), "exists", int(key[1:]), int(bool(r)), 0, snap()])
                         elif name == "incr":
                             log.append(["cmd", tick(), who(), "incr", int(key[1:]), r, 0, snap()])
                         elif name == "delete":
@@ -206,6 +211,7 @@ def _run(case):
                 if op == "get": return await cache.get(_keyname(cmd[1]))
                 if op == "put":
                     await cache.set(_keyname(cmd[1]), cmd[2]); return None
+                if op == "putif": return int(bool(await cache.set(_keyname(cmd[1]), cmd[2], exist=cmd[3])))
                 if op == "incr": return await cache.incr(_keyname(cmd[1]), cmd[2])
                 if op == "del": return int(bool(await cache.delete(_keyname(cmd[1]))))
                 await asyncio.sleep(cmd[1] * 0.1); return None
@@ -296,6 +302,7 @@ def _cmd(c):
     if op == "get": return C("Get", Nat(c[1]))
     if op == "put": return C("Put", Nat(c[1]), Z(c[2]))
     if op == "incr": return C("Incr", Nat(c[1]), Z(c[2]))
+    if op == "putif": return C("PutIf", Nat(c[1]), Z(c[2]), bool(c[3]))
     if op == "del": return C("Del", Nat(c[1]))
     return C("Sleep", Z(2 * c[1]))
 
@@ -310,7 +317,7 @@ def _oz(v):
     return None if v is None else Some(Z(v))
 
 
-BK = {"get": "BGet", "set": "BPut", "incr": "BIncr", "delete": "BDel", "set_lock": "BSetLock", "unlock": "BUnlock", "delete_many": "BDelMany", "set_many": "BSetMany"}
+BK = {"get": "BGet", "set": "BPut", "incr": "BIncr", "delete": "BDel", "set_lock": "BSetLock", "unlock": "BUnlock", "delete_many": "BDelMany", "set_many": "BSetMany", "exists": "BExists"}
 
 
 def to_coq(case, obs):
